@@ -4,9 +4,9 @@
    dictionaries, character classes and regular-expression texts come from Gen.TokenTables / Gen.Elements, regenerated
    from the source on every run. *)
 From Coq Require Import ZArith List String Ascii Bool.
-From Model Require Import PyBase Graph Valence Tokenize Parser Reader SmilesAst SmilesGraph SmilesOrder SmilesText CxGroups Recheck.
-From Gen Require Import TokenTables C03Source.
-From Proofs Require Import TokenizeProofs ParserProofs ReaderProofs ReaderExt ReaderExt2 DenoteProofs GraphProofs OrderProofs TextProofs CxProofs RecheckProofs RecheckTotal SourcePins.
+From Model Require Import PyBase Graph Valence Tokenize TokenizePrims MappingPrims RadicalPrims ContractPrims Parser Reader SmilesAst SmilesGraph SmilesOrder SmilesText CxGroups Recheck.
+From Gen Require Import TokenTables C03Source TokenizeBody MappingBody RadicalBody ContractBody.
+From Proofs Require Import TokenizeProofs ParserProofs ReaderProofs ReaderExt ReaderExt2 DenoteProofs GraphProofs OrderProofs TextProofs CxProofs RecheckProofs RecheckTotal SourcePins TokenizeTranslated ReaderRadicals MappingTranslated RadicalTranslated ContractTranslated TranslatedReader.
 Import ListNotations.
 Open Scope Z_scope.
 
@@ -438,3 +438,224 @@ Theorem C03_source_pinned :
   src_create_reaction = pin_create_reaction.
 Proof. exact source_pinned. Qed.
 Print Assumptions C03_source_pinned.
+
+(* ---- TIE BY TRANSLATION: the body of _tokenize (initial assignments, the loop body, the statements after the loop) is translated
+   statement by statement from /repo's source on every run (tools/gen_c03tok.py -> Gen.TokenizeBody: gen_step, gen_finish,
+   gen_tokenize_raw, over the expression primitives of Model.TokenizePrims) and is the hand-written model: on every state the loop
+   can reach and every character the translated loop body returns what tok_step returns, the translated end what tok_finish returns,
+   and for EVERY string the translated function is tokenize_raw.  An edit of _tokenize that changes its result on some reachable
+   state breaks these theorems (not only the text comparison C03_source_pinned). *)
+Theorem C03_tokenize_translated : forall s : string, gen_tokenize_raw s = tokenize_raw s.
+Proof. exact tokenize_translated. Qed.
+Print Assumptions C03_tokenize_translated.
+
+Theorem C03_tokenize_translated_step : forall st c, TI st -> gen_step st c = tok_step st c.
+Proof. exact gen_step_eq. Qed.
+Print Assumptions C03_tokenize_translated_step.
+
+Theorem C03_tokenize_translated_finish : forall st, TI st -> gen_finish st = tok_finish st.
+Proof. exact gen_finish_eq. Qed.
+Print Assumptions C03_tokenize_translated_finish.
+
+(* what is proved for the model holds for the translation: total, ValueError-class exceptions only, documented token shapes *)
+Theorem C03_tokenize_translated_total : forall s : string,
+  match gen_tokenize_raw s with
+  | Ok l => forallb rawwfb l = true /\ (s <> ""%string -> l <> [])
+  | Err e => vee e = true
+  end.
+Proof. exact gen_tokenize_raw_good. Qed.
+Print Assumptions C03_tokenize_translated_total.
+
+Theorem C03_tokenize_translated_examples :
+  gen_tokenize_raw "C(=O)[O-]%12Cl" = tokenize_raw "C(=O)[O-]%12Cl" /\
+  (exists ts, gen_tokenize_raw "C(=O)[O-]%12Cl" = Ok ts /\ List.length ts = 8%nat) /\
+  gen_tokenize_raw "C%1[CH3]" = Err IncorrectSmiles /\
+  gen_tokenize_raw "C%1" = Ok [(0, PStr "C"); (6, PInt 1)] /\
+  gen_tokenize_raw "C-;!@C" = tokenize_raw "C-;!@C" /\
+  gen_tokenize_raw "C-,=C" = Ok [(0, PStr "C"); (10, PZs [1; 2]); (0, PStr "C")].
+Proof. exact tokenize_translated_examples. Qed.
+Print Assumptions C03_tokenize_translated_examples.
+
+(* ---- the rest of tokenize.py's SMILES path, translated the same way: _atom_parse after the regular-expression match (the conversions
+   of the six groups, the two try / except blocks, the aromatic-symbol test, the dictionary returned; locals are dynamically typed
+   values of Model.TokenizePrims.dv) and the loop of smiles_tokenize.  For EVERY bracket text / every string the translated functions
+   are the hand-written models (the matcher's optional groups are None or non-empty: atom_re_match_shape), so C03_tokenize_total
+   and everything built on `tokenize` speak about the translation of the current source; only the regular expression atom_re itself
+   stays a hand-written matcher (pinned to the pattern text, tied exhaustively) *)
+Theorem C03_atom_parse_translated : forall tok : string, gen_atom_parse tok = atom_parse tok.
+Proof. exact gen_atom_parse_eq. Qed.
+Print Assumptions C03_atom_parse_translated.
+
+Theorem C03_smiles_tokenize_translated : forall s : string, gen_tokenize s = tokenize s.
+Proof. exact gen_tokenize_eq. Qed.
+Print Assumptions C03_smiles_tokenize_translated.
+
+Theorem C03_smiles_tokenize_translated_total : forall s : string,
+  match gen_tokenize s with
+  | Ok l => forallb swfb l = true /\ (s <> ""%string -> l <> [])
+  | Err e => vee e = true
+  end.
+Proof. exact gen_tokenize_good. Qed.
+Print Assumptions C03_smiles_tokenize_translated_total.
+
+Theorem C03_smiles_tokenize_translated_examples :
+  gen_tokenize "[13CH3:7]C(=O)/C=C\c1ccc%10.Cl%10" = tokenize "[13CH3:7]C(=O)/C=C\c1ccc%10.Cl%10" /\
+  (exists l, gen_tokenize "[13CH3:7]C(=O)/C=C\c1ccc%10.Cl%10" = Ok l /\ List.length l = 20%nat) /\
+  gen_atom_parse "13C@@H2+:12" = Ok (0, PAtom (mkAt "C" (Some 13) (Some 12) 1 (Some 2) (Some false))) /\
+  gen_atom_parse "se" = Ok (8, PAtom (mkAt "Se" None None 0 (Some 0) None)) /\
+  gen_atom_parse "C+-" = Err IncorrectSmiles /\
+  gen_tokenize "C-,=C" = Err IncorrectSmiles.
+Proof. exact gen_tokenize_examples. Qed.
+Print Assumptions C03_smiles_tokenize_translated_examples.
+
+(* ---- atom numbering (_mapping.py), translated from the source on every run (tools/gen_c03map.py -> Gen.MappingBody): the body of the
+   numbering loop of postprocess_parsed_molecule and of the loop `for m in tmp:` of postprocess_parsed_reaction (if / elif / else chain,
+   raise, append, next(length), used.add), and the whole of postprocess_parsed_molecule.  Folded over the maps of the atoms from ANY
+   state the translated loop bodies compute Model.Reader.number_loop (same numbers, same counter, same exception), and the translated
+   postprocess_parsed_molecule is pp_molecule for every list of maps >= 0 (a map is written as a digit string).  C03_mapping_numbers*
+   are theorems about number_loop / pp_molecule, hence about the translation of the current source. *)
+Theorem C03_numbering_loop_translated : forall ignore maps st,
+  loop_agrees (nfold (gen_mol_number_step ignore) st maps) st (number_loop ignore maps (n_next st) (n_used st)).
+Proof. exact numbering_loop_translated. Qed.
+Print Assumptions C03_numbering_loop_translated.
+
+Theorem C03_numbering_rxn_loop_translated : forall ignore maps st,
+  loop_agrees (nfold (gen_rxn_number_step ignore) st maps) st (number_loop ignore maps (n_next st) (n_used st)).
+Proof. exact numbering_rxn_loop_translated. Qed.
+Print Assumptions C03_numbering_rxn_loop_translated.
+
+Theorem C03_numbering_translated : forall remap ignore maps, Forall (fun m => 0 <= m) maps ->
+  gen_pp_molecule remap ignore maps = pp_molecule remap ignore maps.
+Proof. exact pp_molecule_translated. Qed.
+Print Assumptions C03_numbering_translated.
+
+(* the first number given to an unmapped atom of a reaction, translated from `length = count(max(max(maps[..], default=0), ...) + 1)`:
+   the start value pp_reaction uses - the maximum over the maps of ALL three roles, plus one (maps >= 0) *)
+Theorem C03_numbering_first_number_translated : forall r0 p0 g0,
+  Forall (fun m => 0 <= m) r0 -> Forall (fun m => 0 <= m) p0 -> Forall (fun m => 0 <= m) g0 ->
+  gen_rxn_first_number r0 p0 g0 = Z.max (Z.max (zmax_list p0 0) (zmax_list r0 0)) (zmax_list g0 0) + 1.
+Proof. exact rxn_first_number_translated. Qed.
+Print Assumptions C03_numbering_first_number_translated.
+
+Theorem C03_numbering_translated_examples :
+  gen_pp_molecule false true [0; 5; 0; 5; 2] = Ok [6; 5; 7; 8; 2] /\
+  gen_pp_molecule false false [0; 5; 0; 5; 2] = Err ValueError /\
+  gen_pp_molecule true true [0; 5; 0; 5; 2] = Ok [1; 2; 3; 4; 5] /\
+  gen_pp_molecule false true [] = Err ValueError /\
+  gen_pp_molecule false true [0; 5; 0; 5; 2] = pp_molecule false true [0; 5; 0; 5; 2] /\
+  gen_rxn_first_number [1; 0] [2; 1] [7] = 8 /\ gen_rxn_first_number [] [] [] = 1.
+Proof. exact pp_molecule_translated_examples. Qed.
+Print Assumptions C03_numbering_translated_examples.
+
+(* ---- CXSMILES radical marks |^n:i,j,...|: which atoms get is_radical.  After the marking loop the atom at position i carries the flag
+   iff it carried it before or i is one of the indices (atom tokens and their order untouched); the loop succeeds iff every index is a
+   position of the atom list and the guarded reader raises IncorrectSmiles otherwise; for a reaction the positions count through the
+   molecules in the order handed to the flattening - the reader hands over reactants ++ reagents ++ products, the WRITTEN order - and
+   cutting the flat list back gives every molecule its own atoms *)
+Theorem C03_radicals_flags : forall rg crash rads (atoms atoms' : list (atomtok * bool)),
+  set_radicals rg crash atoms rads = Ok atoms' ->
+  List.length atoms' = List.length atoms /\
+  forall i a r, nth_error atoms i = Some (a, r) -> nth_error atoms' i = Some (a, r || zmem (Z.of_nat i) rads).
+Proof. exact set_radicals_flags. Qed.
+Print Assumptions C03_radicals_flags.
+
+Theorem C03_radicals_accepts : forall crash rads (atoms : list (atomtok * bool)),
+  (Forall (fun x => 0 <= x < Z.of_nat (List.length atoms)) rads -> exists atoms', set_radicals true crash atoms rads = Ok atoms') /\
+  (~ Forall (fun x => 0 <= x < Z.of_nat (List.length atoms)) rads -> set_radicals true crash atoms rads = Err IncorrectSmiles).
+Proof. exact set_radicals_accepts. Qed.
+Print Assumptions C03_radicals_accepts.
+
+Theorem C03_radicals_written_order : forall (ps : list parsed) (rads : list Z) (flat : list (atomtok * bool)),
+  set_radicals true KeyError (List.concat (map (no_rad) ps)) rads = Ok flat ->
+  let roles := radicals_roles (map no_rad ps) flat in
+  List.concat roles = flat /\
+  map (@List.length _) roles = map (fun p => List.length (p_atoms p)) ps /\
+  map fst flat = List.concat (map p_atoms ps) /\
+  map snd flat = map (fun i => zmem (Z.of_nat i) rads) (seq 0 (List.length flat)).
+Proof. exact radicals_written_order. Qed.
+Print Assumptions C03_radicals_written_order.
+
+(* whole calls: in reactants>reagents>products the index counts the reagent atoms before the product atoms; out of range is rejected *)
+Theorem C03_reaction_radical_examples :
+  rad_flags (read true false "CO>N>CC |^1:4|") = Some ([[false; false]], [[false]], [[false; true]]) /\
+  rad_flags (read true false "CO>N>CC |^1:2|") = Some ([[false; false]], [[true]], [[false; false]]) /\
+  rad_flags (read true false "CBr>CCOCC>C.Br |^1:7,8|") =
+    Some ([[false; false]], [[false; false; false; false; false]], [[true]; [true]]) /\
+  rad_flags (read true false "CC>>CC |^1:3,^2:0|") = Some ([[true; false]], [], [[false; true]]) /\
+  read true false "CO>N>CC |^1:5|" = Err IncorrectSmiles /\
+  read true false "C |^1:1|" = Err IncorrectSmiles.
+Proof. exact reaction_radical_examples. Qed.
+Print Assumptions C03_reaction_radical_examples.
+
+(* ---- the two radical loops of smiles() TRANSLATED from the source on every run (tools/gen_c03rad.py -> Gen.RadicalBody: the guards with
+   their comparison operators and operands, the indexing statements with Python's list / dict semantics, the order of the roles in the
+   chain(...) that builds the atom table of a reaction): the table is the flattening reactants ++ reagents ++ products the model uses
+   (the written order), the translated reaction loop is set_radicals for all inputs, the translated molecule loop for all indices >= 0
+   (an index is written as a digit string) *)
+Theorem C03_radicals_translated_table : forall pR pG pP : list parsed,
+  gen_rxn_atom_table (map no_rad pR) (map no_rad pG) (map no_rad pP) = List.concat (map no_rad (pR ++ pG ++ pP)).
+Proof. exact rxn_table_translated. Qed.
+Print Assumptions C03_radicals_translated_table.
+
+Theorem C03_radicals_translated_reaction : forall rads atoms,
+  rfold gen_rxn_radical_step atoms rads = set_radicals true KeyError atoms rads.
+Proof. exact rxn_radicals_translated. Qed.
+Print Assumptions C03_radicals_translated_reaction.
+
+Theorem C03_radicals_translated_molecule : forall rads atoms, Forall (fun x => 0 <= x) rads ->
+  rfold gen_mol_radical_step atoms rads = set_radicals true IndexError atoms rads.
+Proof. exact mol_radicals_translated. Qed.
+Print Assumptions C03_radicals_translated_molecule.
+
+Theorem C03_radicals_translated_examples :
+  rfold gen_mol_radical_step [(simple_atom "C", false); (simple_atom "O", false)] [1] = Ok [(simple_atom "C", false); (simple_atom "O", true)] /\
+  rfold gen_mol_radical_step [(simple_atom "C", false); (simple_atom "O", false)] [2] = Err IncorrectSmiles /\
+  rfold gen_rxn_radical_step (gen_rxn_atom_table [[(simple_atom "C", false)]] [[(simple_atom "N", false)]] [[(simple_atom "O", false)]]) [1] =
+    Ok [(simple_atom "C", false); (simple_atom "N", true); (simple_atom "O", false)] /\
+  rfold gen_rxn_radical_step [(simple_atom "C", false)] [1] = Err IncorrectSmiles.
+Proof. exact radicals_translated_examples. Qed.
+Print Assumptions C03_radicals_translated_examples.
+
+(* ---- the CXSMILES fragment-contraction block of smiles() (`if contract:`) TRANSLATED from the source on every run (tools/gen_c03cx.py ->
+   Gen.ContractBody, every statement in source order: the index sets with their bounds as arithmetic over lr / lp / mol_count, the
+   if / elif chain of `for c in contract:` - which set is tested in which order, which role list is read with which index shift, which set
+   is reduced -, the three filling loops with their shifts, the three slices that cut new_molecules back into roles with Python's slice
+   semantics): the translated loop is cr_go and the translated block is contract_roles, for every reaction and every list of non-empty
+   groups (a group of the CX block has at least two members); C03_contract_spec_correct / C03_cx_block_contract_spec are therefore
+   statements about the translation of the current source *)
+Theorem C03_contract_loop_translated : forall R P G lr lp mc cs st, Forall (fun c => c <> []) cs ->
+  cfold (gen_cr_step R P G lr lp mc) st cs = cr_go R P G lr mc cs st.
+Proof. exact contract_loop_translated. Qed.
+Print Assumptions C03_contract_loop_translated.
+
+Theorem C03_contract_translated : forall contract R P G, Forall (fun c => c <> []) contract ->
+  gen_contract_roles contract R P G (Z.of_nat (List.length R) + Z.of_nat (List.length P) + Z.of_nat (List.length G)) =
+  contract_roles contract R P G.
+Proof. exact contract_translated. Qed.
+Print Assumptions C03_contract_translated.
+
+Theorem C03_contract_translated_example :
+  gen_contract_roles [[2; 3]; [10; 11]]
+    (map list_ascii_of_string ["C"; "O"; "N"; "S"; "C"; "O"; "N"; "S"; "C"; "O"; "[Na+]"; "[Cl-]"]%string) (map list_ascii_of_string ["CC"]%string) [] 13 =
+  Ok (map list_ascii_of_string ["C"; "O"; "N.S"; "C"; "O"; "N"; "S"; "C"; "O"; "[Na+].[Cl-]"]%string, map list_ascii_of_string ["CC"]%string, []) /\
+  gen_contract_roles [[1; 2]] (map list_ascii_of_string ["C"]%string) (map list_ascii_of_string ["S"]%string) (map list_ascii_of_string ["O"; "N"]%string) 4 =
+  Ok (map list_ascii_of_string ["C"]%string, map list_ascii_of_string ["S"]%string, map list_ascii_of_string ["O.N"]%string).
+Proof. exact contract_translated_example. Qed.
+Print Assumptions C03_contract_translated_example.
+
+(* ---- the side conditions of the translation theorems hold for everything the reader itself produces: the indices of a CXSMILES radical
+   block are >= 0 (read with int() from digit strings) and its fragment groups are non-empty, so for EVERY CX block text the translated
+   molecule-branch radical loop and the translated contraction block are the model without hypotheses *)
+Theorem C03_cx_radicals_nonneg : forall cxs rads c, cx_block cxs = Ok (rads, c) -> Forall (fun x => 0 <= x) rads.
+Proof. exact cx_radicals_nonneg. Qed.
+Print Assumptions C03_cx_radicals_nonneg.
+
+Theorem C03_radicals_translated_molecule_cx : forall cxs rads c atoms, cx_block cxs = Ok (rads, c) ->
+  rfold gen_mol_radical_step atoms rads = set_radicals true IndexError atoms rads.
+Proof. exact mol_radicals_translated_cx. Qed.
+Print Assumptions C03_radicals_translated_molecule_cx.
+
+Theorem C03_contract_translated_cx : forall cxs rads c R P G, cx_block cxs = Ok (rads, Some c) ->
+  gen_contract_roles c R P G (Z.of_nat (List.length R) + Z.of_nat (List.length P) + Z.of_nat (List.length G)) = contract_roles c R P G.
+Proof. exact contract_translated_cx. Qed.
+Print Assumptions C03_contract_translated_cx.
